@@ -100,16 +100,19 @@ Definition frames_refine_spec : Prop :=
   forall (f : func) (n m : nat) r1 r2,
     vm_run n f = Some r1 -> go_run m f = Some r2 -> r1 = r2.
 
-Lemma native_defer_panic_witness :
-  vm_run 10 (mkfunc [IDeferNat (NPanic 1)] []) = Some (ORunPanics 1, []) /\
+(* the former witness native-defer-panic-host-panic: repaired, the panic of a
+   deferred native function is an ordinary panic (at return, and while another
+   panic unwinds: the second tree, where it is also recovered) *)
+Lemma native_defer_panic_repaired :
+  vm_run 10 (mkfunc [IDeferNat (NPanic 1)] []) = Some (OPanic [(1%N, false, None)], []) /\
   go_run 10 (mkfunc [IDeferNat (NPanic 1)] []) = Some (OPanic [(1%N, false, None)], []).
 Proof. split; vm_compute; reflexivity. Qed.
 
-Lemma frames_refine_spec_refuted : ~ frames_refine_spec.
-Proof.
-  intros H. destruct native_defer_panic_witness as [H1 H2].
-  specialize (H _ _ _ _ _ H1 H2). discriminate.
-Qed.
+Lemma native_defer_panic_unwinding_repaired :
+  let w := mkfunc [IDeferFn [IRecover false] []; IDeferNat (NPanic 1); IPanic 2] [(2, 5%N)] in
+  vm_run 40 w = Some (ONil, [ERecover (Some 1%N)]) /\
+  go_run 40 w = Some (ONil, [ERecover (Some 1%N)]).
+Proof. split; vm_compute; reflexivity. Qed.
 
 (* the former witness recovered-panic-stays-in-chain: repaired, the machine now agrees with Go *)
 Lemma stale_recovered_repaired :
@@ -131,6 +134,12 @@ Lemma callback_panic_witness :
   vm_run 40 w = Some (OCbPanic [(7, false)]%N, []) /\
   go_run 40 w = Some (ONil, [ERecover (Some 7%N)]).
 Proof. split; vm_compute; reflexivity. Qed.
+
+Lemma frames_refine_spec_refuted : ~ frames_refine_spec.
+Proof.
+  intros H. destruct callback_panic_witness as [H1 H2].
+  specialize (H _ _ _ _ _ H1 H2). discriminate.
+Qed.
 
 (* ------------------------------------------------------------------ *)
 (* Runs                                                                 *)
@@ -178,6 +187,13 @@ Proof.
   replace (S (length l)) with (length (l ++ [x])) by (rewrite app_length; simpl; lia).
   replace (l ++ x :: r) with ((l ++ [x]) ++ r) by (rewrite <- app_assoc; reflexivity).
   apply skipn_exact.
+Qed.
+
+Lemma firstn_snoc {A} (l : list A) x r : firstn (S (length l)) (l ++ x :: r) = l ++ [x].
+Proof.
+  replace (l ++ x :: r) with ((l ++ [x]) ++ r) by (rewrite <- app_assoc; reflexivity).
+  replace (S (length l)) with (length (l ++ [x])) by (rewrite app_length; simpl; lia).
+  apply firstn_exact.
 Qed.
 
 Lemma nth_error_prefix {A} (l r : list A) i : i < length l -> nth_error (l ++ r) i = nth_error l i.
@@ -258,7 +274,8 @@ Lemma after_switch_fn s h i st :
 Proof. reflexivity. Qed.
 
 Lemma after_switch_body s n i st :
-  after_switch s (mkframe (CNat (NBody n)) 0 st) i = Next (set_mode (emit s (EBody n)) (MNext i)).
+  after_switch s (mkframe (CNat (NBody n)) 0 st) i
+  = Next (set_mode (emit (set_calls s (firstn i (scalls s))) (EBody n)) (MNext i)).
 Proof. reflexivity. Qed.
 
 Ltac proj_in H := unfold set_calls, set_mode, emit, set_pc in H; cbn [smode sfn spc scalls schain str sraised souter] in H.
@@ -273,10 +290,10 @@ Lemma dfr_cons c ds : dfr (c :: ds) = dfr ds ++ [mkframe c 0 Deferred].
 Proof. unfold dfr. simpl. rewrite map_app. reflexivity. Qed.
 
 Definition tr_callee (c : callee) : list event :=
-  match c with CFn f => pf_trace f | CNat (NBody n) => [EBody n] | CNat _ => [] end.
+  match c with CFn f => pf_trace f | CNat (NBody n) => [EBody n] | _ => [] end.
 Definition tr_defers (ds : list callee) : list event := flat_map tr_callee ds.
 Definition pf_callee (c : callee) : Prop :=
-  match c with CFn f => pf_func f | CNat (NBody _) => True | CNat _ => False end.
+  match c with CFn f => pf_func f | CNat (NBody _) => True | _ => False end.
 
 (* t is in the loop of nextCall, about to examine the top of base *)
 Definition ret_like (base : list frame) (tr : list event) (r : N) (o : list saved) (t : state) : Prop :=
@@ -305,7 +322,7 @@ Definition fn_ok (f : func) : Prop :=
               ret_like base (rev (pf_trace f) ++ tr) r o t.
 
 Definition callee_ok (c : callee) : Prop :=
-  match c with CFn g => fn_ok g | CNat _ => True end.
+  match c with CFn g => fn_ok g | _ => True end.
 
 Lemma dfr_length ds : length (dfr ds) = length ds.
 Proof. unfold dfr. rewrite map_length, rev_length. reflexivity. Qed.
@@ -330,7 +347,7 @@ Proof.
     assert (HmA : smode t0 = MNext (S (S (length A)))).
     { rewrite Hm. f_equal. unfold A. repeat rewrite app_length. simpl. lia. }
     assert (Hstep := step_returned_deferred t0 A _ _ junk HmA HcA eq_refl eq_refl).
-    destruct c as [h|nk].
+    destruct c as [h|nk|]; [| |contradiction].
     + (* an interpreted deferred function *)
       rewrite after_switch_fn in Hstep. proj_in Hstep.
       replace (A ++ mkframe x 0 Returned :: mkframe x 0 Returned :: junk)
@@ -348,12 +365,12 @@ Proof.
       * eapply leads_trans; [apply leads_step; exact Hstep|]. eapply leads_trans; eassumption.
       * unfold tr_defers in *. simpl. rewrite rev_app_distr, <- app_assoc. exact Hrl.
     + destruct nk as [n| | |]; simpl in Hpc; try contradiction.
-      rewrite after_switch_body in Hstep.
+      rewrite after_switch_body in Hstep. proj_in Hstep. rewrite firstn_snoc in Hstep.
       match type of Hstep with _ = Next ?u => set (t1 := u) in * end.
       destruct (IH base x (EBody n :: str t0) (sraised t0) (souter t0) t1 Hpds Hods Htop) as [t [Hl Hrl]].
       { unfold t1. repeat split; proj.
         - f_equal. unfold A. repeat rewrite app_length. simpl. lia.
-        - exists (mkframe x 0 Returned :: junk). unfold A. repeat rewrite <- app_assoc. reflexivity.
+        - exists []. unfold A. repeat rewrite <- app_assoc. reflexivity.
         - exact Hch. }
       exists t. split.
       * eapply leads_trans; [apply leads_step; exact Hstep|exact Hl].
@@ -396,7 +413,7 @@ Lemma step_exec_at s f ins :
                         if status_eqb (fstat call) Started then
                           match fcl call with
                           | CFn g => Next (mkstate MExec (Some g) (fpc call) (firstn i (scalls s)) (schain s) (str s) (sraised s) (souter s))
-                          | CNat _ => Next (mkstate MExec None (fpc call) (firstn i (scalls s)) (schain s) (str s) (sraised s) (souter s))
+                          | CNat _ | CNone => Next (mkstate MExec None (fpc call) (firstn i (scalls s)) (schain s) (str s) (sraised s) (souter s))
                           end
                         else Next (set_mode s (MNext (S i)))
                     end
@@ -455,7 +472,7 @@ Proof.
     rewrite nth_error_mid in Hstep. simpl in Hstep.
     match type of Hstep with _ = Next ?u => set (s1 := u) in * end.
     assert (Hstep1 := step_deferred_top s1 A (mkframe c 0 Deferred) [] f eq_refl eq_refl eq_refl eq_refl).
-    destruct c as [h|nk].
+    destruct c as [h|nk|]; [| |contradiction].
     + rewrite after_switch_fn in Hstep1. proj_in Hstep1.
       replace (A ++ [mkframe (CFn f) 0 Returned]) with ((A ++ [mkframe (CFn f) 0 Returned]) ++ []) in Hstep1 by apply app_nil_r.
       replace (S (length A)) with (length (A ++ [mkframe (CFn f) 0 Returned])) in Hstep1 by (rewrite app_length; simpl; lia).
@@ -471,7 +488,7 @@ Proof.
         eapply leads_trans; eassumption.
       * unfold tr_defers in *. simpl. rewrite rev_app_distr, <- app_assoc. exact Hrl.
     + destruct nk as [n| | |]; simpl in Hpc; try contradiction.
-      rewrite after_switch_body in Hstep1.
+      rewrite after_switch_body in Hstep1. proj_in Hstep1. rewrite firstn_snoc in Hstep1.
       match type of Hstep1 with _ = Next ?u => set (t1 := u) in * end.
       destruct (after_deferred ds base (CFn f) (EBody n :: tr) r o t1 Hpds Hods Htop) as [t [Hl Hrl]].
       { unfold t1. repeat split; proj.
@@ -506,7 +523,7 @@ Proof.
 Qed.
 
 Definition small_callee (bound : nat) (c : callee) : Prop :=
-  match c with CFn g => bsize (fbody g) < bound | CNat _ => True end.
+  match c with CFn g => bsize (fbody g) < bound | _ => True end.
 
 Lemma exec_suffix f :
   (forall g, bsize (fbody g) < bsize (fbody f) -> pf_func g -> fn_ok g) ->
@@ -519,7 +536,7 @@ Proof.
   intros IHf.
   assert (Hoks : forall ds, Forall pf_callee ds -> Forall (small_callee (bsize (fbody f))) ds -> Forall callee_ok ds).
   { induction ds as [|c ds IHd]; intros Hp Hs; constructor.
-    - inversion Hp; inversion Hs; subst. destruct c as [g|]; [|exact I]. apply IHf; assumption.
+    - inversion Hp; inversion Hs; subst. destruct c as [g| |]; [|exact I|exact I]. apply IHf; assumption.
     - inversion Hp; inversion Hs; subst. apply IHd; assumption. }
   induction rest as [|x rest IH]; intros pre ds base tr r o Hbody Hpf Hpds Hsm Htop.
   - rewrite app_nil_r in Hbody. subst pre. simpl.
@@ -638,7 +655,7 @@ Definition rec_ok (n : nat) (rec : func -> bool -> bool -> gst -> gres) : Prop :
   forall h b1 b2 g, pf_func h -> fsize h <= n -> gpan g = [] -> rec h b1 b2 g = GNormal (gadd g (pf_trace h)).
 
 Definition callee_fits (n : nat) (c : callee) : Prop :=
-  match c with CFn h => fsize h <= n | CNat _ => True end.
+  match c with CFn h => fsize h <= n | _ => True end.
 
 Lemma gadd_app g a b : gadd (gadd g a) b = gadd g (a ++ b).
 Proof. unfold gadd. simpl. rewrite rev_app_distr, <- app_assoc. reflexivity. Qed.
@@ -653,7 +670,7 @@ Proof.
   intros Hrec. induction ds as [|d ds IH]; intros g Hpf Hfit Hg.
   - simpl. unfold gadd. simpl. destruct g; simpl in *. subst. reflexivity.
   - inversion Hpf as [|? ? Hp1 Hp2]; subst. inversion Hfit as [|? ? Hf1 Hf2]; subst. simpl g_rundefers.
-    destruct d as [h|nk].
+    destruct d as [h|nk|]; [| |contradiction].
     + rewrite (Hrec h false bp g Hp1 Hf1 Hg).
       rewrite (IH (gadd g (pf_trace h)) Hp2 Hf2 eq_refl).
       rewrite gadd_app. reflexivity.
